@@ -41,7 +41,7 @@ ID = "C24"
 LEVEL = "exploration"
 
 FLAGS = ("dagger", "control", "power")
-POSITIONS = ("stmt", "if", "while", "ifexp", "arg")
+POSITIONS = ("stmt", "if", "while", "ifexp", "arg", "arg-after-qubit")
 MIXES = ("q", "a", "qa", "gq", "ga", "gxs")   # g*: GENERIC callee (x: T) instantiated with a qubit / int / qubit array
 CONSTRUCTS = ("for", "while", "assign", "annassign", "augassign", "for_in_if",
               "assign_in_if", "subscript")
@@ -73,6 +73,8 @@ def contexts():
         out.append({"kind": "dec", "mods": list(f)})
     out.append({"kind": "dec_unitary", "mods": list(FLAGS)})
     for f in subsets(FLAGS):
+        out.append({"kind": "dec_explicit_false", "mods": list(f)})
+    for f in subsets(FLAGS):
         if not f:
             continue
         for perm in itertools.permutations(f):
@@ -82,9 +84,12 @@ def contexts():
     return out
 
 
-def deco(name, flags, unitary_kw=False):
+def deco(name, flags, unitary_kw=False, explicit_false=False):
     if unitary_kw:
         return f"@{name}(unitary=True)"
+    if explicit_false:
+        # every flag spelled out, the absent ones as False
+        return f"@{name}(" + ", ".join(f"{f}={f in flags}" for f in FLAGS) + ")"
     if not flags:
         return f"@{name}"
     return f"@{name}(" + ", ".join(f"{f}=True" for f in flags) + ")"
@@ -105,6 +110,8 @@ def wrap_context(ctx, body_lines, params):
         return [deco("guppy", ctx["mods"]), sig, *indent(body_lines, 4)]
     if kind == "dec_unitary":
         return [deco("guppy", (), unitary_kw=True), sig, *indent(body_lines, 4)]
+    if kind == "dec_explicit_false":
+        return [deco("guppy", ctx["mods"], explicit_false=True), sig, *indent(body_lines, 4)]
     if kind == "with_items":
         w = "with " + ", ".join(MOD_TEXT[m] for m in ctx["mods"]) + ":"
         return ["@guppy", sig, "    " + w, *indent(body_lines, 8)]
@@ -119,7 +126,7 @@ def wrap_context(ctx, body_lines, params):
 
 RET = {"stmt": ("None", "pass"), "if": ("bool", "return True"),
        "while": ("bool", "return True"), "ifexp": ("bool", "return True"),
-       "arg": ("int", "return 1")}
+       "arg": ("int", "return 1"), "arg-after-qubit": ("int", "return 1")}
 MIX_PARAMS = {"q": "q: qubit", "a": "a: int", "qa": "q: qubit, a: int", "gq": "x: T", "ga": "x: T", "gxs": "x: T"}
 MIX_ARGS = {"q": "q", "a": "a", "qa": "q, a", "gq": "q", "ga": "a", "gxs": "qs2"}
 QUBIT_MIXES = ("q", "qa", "gq", "gxs")
@@ -134,6 +141,9 @@ def place_call(position, call):
         return [f"while {call}:", "    pass"]
     if position == "ifexp":
         return [f"1 if {call} else 2"]
+    if position == "arg-after-qubit":
+        # the call is a LATER argument of a fully flagged callee whose first argument is a qubit
+        return [f"sinkq(q2, {call})"]
     assert position == "arg"
     return [f"sink({call})"]
 
@@ -144,11 +154,14 @@ def callee_src(kind, g, mix, position, name="callee", params=None):
     gen = "[T]" if mix.startswith("g") else ""
     if kind == "def":
         return [deco("guppy", g), f"def {name}{gen}({params}) -> {ret}:", "    " + body]
+    if kind == "def_explicit":
+        return [deco("guppy", g, explicit_false=True), f"def {name}{gen}({params}) -> {ret}:", "    " + body]
     assert kind == "decl"
     return [deco("guppy.declare", g), f"def {name}{gen}({params}) -> {ret}: ..."]
 
 
 SINK = ["@guppy", "def sink(a: int) -> None:", "    pass"]
+SINKQ = ["@guppy.declare(dagger=True, control=True, power=True)", "def sinkq(t: qubit, a: int) -> None: ..."]
 MAIN_PARAMS = "q: qubit, c: qubit, a: int"
 MAIN_PARAMS_XS = "xs: array[qubit, 2], c: qubit, a: int"
 
@@ -170,10 +183,13 @@ def build(item):
         pre += callee_src(item["ckind"], item["g"], item["mix"], position)
         if position == "arg":
             pre += SINK
+        if position == "arg-after-qubit":
+            pre += SINKQ
+            params = MAIN_PARAMS + ", q2: qubit"
         body = place_call(position, f"callee({MIX_ARGS[item['mix']]})")
         passes_qubit = item["mix"] in QUBIT_MIXES
         if item["mix"] == "gxs":
-            params = MAIN_PARAMS + ", qs2: array[qubit, 2]"
+            params = params + ", qs2: array[qubit, 2]"
         if position == "while":
             construct = "while"
     elif fam == "special":
@@ -239,11 +255,13 @@ def all_items(quick=False):
     ctxs = contexts()
     gs = subsets(FLAGS)
     for ctx in ctxs:
-        for ckind in ("def", "decl"):
+        for ckind in ("def", "decl", "def_explicit"):
             for g in gs:
                 for mix in MIXES:
                     for pos in POSITIONS:
                         if quick and ckind == "decl" and pos != "stmt":
+                            continue
+                        if ckind == "def_explicit" and (pos != "stmt" or mix not in ("q", "a")):
                             continue
                         items.append({"fam": "user", "ctx": ctx, "ckind": ckind,
                                       "g": list(g), "mix": mix, "position": pos})
@@ -363,6 +381,11 @@ def evaluate(item):
                 if ctx["kind"] == "with_nested" and {ctx["mods"][-1]} <= set(facts["G"] or ()):
                     key += ":flags-of-outer-with"
             rec["viol"].append((key, "accepted although the statement demands rejection"))
+        elif o.title not in allowed and o.title in (T_UNITARY, T_DAGGER):
+            # rejected, but with the unitary checker's diagnostic for a reason that does not apply here (e.g. 'invalid
+            # under dagger' in a context without dagger): the context / callee flags were misread
+            rec["viol"].append((f"rejected-for-inapplicable-reason:{o.title}",
+                                f"rejected with {o.title!r}, the applicable reasons allow only {sorted(allowed)}"))
         elif o.title not in allowed:
             rec["ill"] = f"rejected with title {o.title!r}, applicable reasons allow {sorted(allowed)}"
         elif o.title == T_UNSUPPORTED and "dagger context" not in o.rendered:
@@ -396,7 +419,7 @@ def evaluate(item):
 
 def _posname(p):
     return {"stmt": "statement", "if": "if-condition", "while": "while-condition",
-            "ifexp": "ifexp-test", "arg": "call-argument"}[p]
+            "ifexp": "ifexp-test", "arg": "call-argument", "arg-after-qubit": "call-argument-after-qubit"}[p]
 
 
 def describe(item, facts):
